@@ -14,7 +14,20 @@ def handle : Handler
     if vs.isEmpty then pure "-" else
     pure (" ".intercalate (vs.map fun v =>
       strOut (String.ofList v) ++ ":" ++ (match parseItems v with | .ok _ => "ok" | .error e => toString e.line)))
-  | "ops", [] => pure (",".intercalate (Op.all.map Op.name))
+  | "ops", [] => pure (",".intercalate ((Op.all.filter fun o => !o.arbitrated).map Op.name))
+  | "arbitrated-ops", [] => pure (",".intercalate ((Op.all.filter Op.arbitrated).map Op.name))
+  -- `count <op> <doc>`: number of sites; `variant <op> <k> <doc>`: the document corrupted at site k with the model's verdict
+  | "count", [op, doc] => do
+    let op ← Op.ofName op
+    let s ← strArg doc
+    pure (toString (siteCount op s.toList))
+  | "variant", [op, k, doc] => do
+    let op ← Op.ofName op
+    let k ← k.toNat?
+    let s ← strArg doc
+    match corrupt op k s.toList with
+    | none => pure "-"
+    | some v => pure (strOut (String.ofList v) ++ ":" ++ (match parseItems v with | .ok _ => "ok" | .error e => toString e.line))
   | "parse", [doc] => Driver.CatsParse.handle "parse" [doc]
   | _, _ => none
 
